@@ -1356,13 +1356,31 @@ fn gen_dwarf(seed: u64, endian: RunTimeEndian) -> Result<Secs, String> {
             }
             let mil = lenc.minimum_instruction_length as u64;
             let mut base = 0x1000u64;
-            for _ in 0..r.range(1, 4) {
+            let nseq = r.range(1, 4);
+            let mut live = false;
+            for si in 0..nseq {
                 base += r.below(0x1000) * mil;
-                if r.chance(5, 6) {
-                    p.begin_sequence(Some(Address::Constant(base)));
-                } else {
-                    p.begin_sequence(None);
+                // sequence kinds, in any order within one program: with its own set_address;
+                // WITHOUT one (starts at address 0); moved to a tombstone address (-1 / -2 at the
+                // address size) from its start; (rows may be empty)
+                let tomb = u64::MAX >> (64 - 8 * enc.address_size as u32);
+                // at least one sequence of every program is live (a program whose sequences are all
+                // tombstoned converts to a unit without line program: notes/C12.md, open question)
+                let mut kind = r.below(8);
+                if si + 1 == nseq && !live && (kind == 2 || kind == 3) {
+                    kind = 5;
                 }
+                if kind != 2 && kind != 3 {
+                    live = true;
+                }
+                match kind {
+                    0 | 1 => p.begin_sequence(None),
+                    2 | 3 => p.begin_sequence(Some(Address::Constant(tomb))),
+                    _ => p.begin_sequence(Some(Address::Constant(base))),
+                }
+                // (mid-way tombstones are not generated here: see notes/C12.md D10)
+                let tomb_after = u64::MAX;
+                let mut nrow = 0u64;
                 let mut off = 0u64;
                 let mut line = 1u64;
                 let mut opi = 0u64;
@@ -1387,6 +1405,10 @@ fn gen_dwarf(seed: u64, endian: RunTimeEndian) -> Result<Secs, String> {
                     row.isa = if r.chance(1, 8) { r.below(5) } else { 0 };
                     row.discriminator = if enc.version >= 4 && r.chance(1, 5) { r.below(300) } else { 0 };
                     p.generate_row();
+                    nrow += 1;
+                    if nrow == tomb_after {
+                        p.set_address(Address::Constant(tomb));
+                    }
                 }
                 off += mil * r.range(1, 40);
                 p.end_sequence(off);
